@@ -411,6 +411,33 @@ pub fn run(opts: &Opts) -> Report {
         crate::fam::iterapi::check_iterators(&mut rep, &script, &mut rng);
         if i == 0 { rep.sample(json!({"script": script})); }
     }
+    // ---------- the same offsets selected in two resources: each text selection is a result once ----------
+    {
+        let script: Vec<String> = vec!["st addres r0 9".into(), "st addres r1 9".into(), "st annot a0 T:r0:b0:b5 s0/k0/s:v".into(), "st annot a1 T:r1:b0:b5 s0/k0/s:v".into(), "st annot a2 T:r0:b0:b5 s0/k0/s:v".into(), "st annot a3 T:r1:b2:b4 s0/k0/s:v".into()];
+        let mut ex = Exec::new();
+        for l in &script { ex.exec(l); }
+        for text in ["SELECT TEXT ?t WHERE DATA \"s0\" \"k0\" = \"v\";", "SELECT TEXT ?t;"] {
+            rep.count("query:same-offsets-in-two-resources");
+            rep.case(Some(&format!("same-offsets-in-two-resources {}", text)));
+            let ctx: Vec<String> = script.iter().cloned().chain(std::iter::once(text.to_string())).collect();
+            let got = guarded(std::panic::AssertUnwindSafe(|| -> Result<Vec<String>, String> {
+                let q = Query::try_from(text).map_err(|e| format!("{}", e))?;
+                Ok(ex.store.query(q).map_err(|e| format!("{}", e))?.filter_map(|row| row.iter().next().and_then(|x| if let QueryResultItem::TextSelection(t) = x { Some(format!("{}:{}-{}", t.resource().id().unwrap_or("?"), t.begin(), t.end())) } else { None })).collect())
+            }));
+            match got {
+                Err(m) => rep.fail("panic", "C08/same-offsets-in-two-resources/panic", ctx, "rows", &m),
+                Ok(Err(_)) => {}
+                Ok(Ok(rows)) => { let mut u = rows.clone(); u.sort(); u.dedup(); if u.len() != rows.len() { rep.fail("oracle", "C08/same-offsets-in-two-resources/a-text-selection-twice", ctx, &format!("each once: {:?}", u), &format!("{:?}", rows)); } }
+            }
+        }
+        // the iterator form of the related-text search over references in two resources (C06)
+        rep.count("query:related-text-over-two-resources");
+        let got = guarded(std::panic::AssertUnwindSafe(|| -> Vec<String> {
+            let refs: Vec<ResultTextSelection> = ex.store.annotations().flat_map(|a| a.textselections().collect::<Vec<_>>()).collect();
+            refs.into_iter().related_text(TextSelectionOperator::embeds()).map(|t| format!("{}:{}-{}", t.resource().id().unwrap_or("?"), t.begin(), t.end())).collect()
+        }));
+        if let Ok(rows) = got { let mut u = rows.clone(); u.sort(); u.dedup(); if u.len() != rows.len() { rep.fail("oracle", "C08/same-offsets-in-two-resources/related-text-twice", script.clone(), &format!("each once: {:?}", u), &format!("{:?}", rows)); } }
+    }
     let _ = observe;
     rep
 }
